@@ -679,6 +679,8 @@ class RTCSctpTransport(AsyncIOEventEmitter):
         self._fast_recovery_exit = None
         self._fast_recovery_transmit = False
         self._forward_tsn_chunk: Optional[ForwardTsnChunk] = None
+        self._forward_tsn_pending: Optional[int] = None
+        self._forward_tsn_streams: dict[int, tuple[int, int]] = {}
         self._flight_size = 0
         self._local_tsn = random32()
         self._last_sacked_tsn = tsn_minus_one(self._local_tsn)
@@ -1200,8 +1202,10 @@ class RTCSctpTransport(AsyncIOEventEmitter):
         for stream_id, stream_seq in chunk.streams:
             inbound_stream = self._get_inbound_stream(stream_id)
 
-            # advance sequence number and perform delivery
-            inbound_stream.sequence_number = uint16_add(stream_seq, 1)
+            # advance sequence number (never rewind it, a FORWARD TSN can be
+            # repeated) and perform delivery
+            if uint16_gt(uint16_add(stream_seq, 1), inbound_stream.sequence_number):
+                inbound_stream.sequence_number = uint16_add(stream_seq, 1)
             for message in inbound_stream.pop_messages():
                 self._advertised_rwnd += len(message[2])
                 await self._receive(*message)
@@ -1686,20 +1690,33 @@ class RTCSctpTransport(AsyncIOEventEmitter):
         if uint32_gt(self._last_sacked_tsn, self._advanced_peer_ack_tsn):
             self._advanced_peer_ack_tsn = self._last_sacked_tsn
 
-        done = 0
-        streams = {}
         while self._sent_queue and self._sent_queue[0]._abandoned:
             chunk = self._sent_queue.popleft()
             self._advanced_peer_ack_tsn = chunk.tsn
-            done += 1
+            self._forward_tsn_pending = chunk.tsn
             if not (chunk.flags & SCTP_DATA_UNORDERED):
-                streams[chunk.stream_id] = chunk.stream_seq
+                self._forward_tsn_streams[chunk.stream_id] = (
+                    chunk.stream_seq,
+                    chunk.tsn,
+                )
 
-        if done:
-            # build FORWARD TSN
+        # forget the abandoned messages the peer has caught up with
+        for stream_id, (stream_seq, tsn) in list(self._forward_tsn_streams.items()):
+            if uint32_gte(self._last_sacked_tsn, tsn):
+                del self._forward_tsn_streams[stream_id]
+        if self._forward_tsn_pending is not None and uint32_gte(
+            self._last_sacked_tsn, self._forward_tsn_pending
+        ):
+            self._forward_tsn_pending = None
+
+        if self._forward_tsn_pending is not None:
+            # build FORWARD TSN, it is repeated until the peer has caught up
             self._forward_tsn_chunk = ForwardTsnChunk()
             self._forward_tsn_chunk.cumulative_tsn = self._advanced_peer_ack_tsn
-            self._forward_tsn_chunk.streams = list(streams.items())
+            self._forward_tsn_chunk.streams = [
+                (stream_id, stream_seq)
+                for stream_id, (stream_seq, tsn) in self._forward_tsn_streams.items()
+            ]
 
     def _update_rto(self, R: float) -> None:
         """
